@@ -496,7 +496,7 @@ def methodNorm (self : Obj) : Outcome := .plain .float self.lead
 
 /-! ## the conjugation loops (entries) -/
 
-def upd {α : Type} (c : Nat → α) (i : Nat) (v : α) : Nat → α := fun p => if p = i then v else c p
+@[noinline] def upd {α : Type} (c : Nat → α) (i : Nat) (v : α) : Nat → α := fun p => if p = i then v else c p
 
 /-- `x` or `-x` according to the parity of `k` (`k % 2 == 0` in Python: non-negative remainder) -/
 def sgn {α : Type} (neg : α → α) (k : Int) (x : α) : α := if k % 2 = 0 then x else neg x
